@@ -17,6 +17,7 @@ def dispatch (line : String) : String :=
   | "signum" :: rest => Signum.Drv.handle rest
   | "reload" :: rest => Reload.Drv.handle rest
   | "sock" :: rest => Sockets.Drv.handle rest
+  | "wiring" :: rest => Wiring.Drv.handle rest
   | _ => "bad-op"
 
 partial def loop (h : IO.FS.Stream) (out : IO.FS.Stream) : IO Unit := do
